@@ -210,7 +210,7 @@ func genNegScript(g G, devPct int) NegScript {
 	if s.Resume == ResumeUnreadable {
 		s.ResumeAlt = g.N("resume-alt", len(ResumeUnreadableReplies))
 	}
-	s.Bind = dev("bind", 9)
+	s.Bind = dev("bind", 11)
 	s.SessionRep = dev("sessionrep", 7)
 	s.Enable = 0
 	if g.Pct("enable-dev", devPct) {
